@@ -115,6 +115,7 @@ func driveFile(b []byte, pattern string) fileOutcome {
 		}
 		sort.Strings(names)
 		if p, msg := mc.Guard(func() {
+			o.Pkg = ctlSummary(d)
 			for _, k := range names {
 				e := d.ArContent[k]
 				if e == nil {
